@@ -22,7 +22,7 @@ RULE = (
     "add/clear Dirichlet, replace / renumber / move the mesh); after every operation Assembly() and Get_K_C_M_F() are "
     "compared with the dense re-summation. A step is non-trivial when it re-assembles with a cached reduction map (key "
     "seen before) or changes the key (dof_n, Ndof, contributing groups); a case is non-trivial when it has such a step. "
-    "real_simus: Elastic/Thermal/Beam/WeakForms on generated meshes, first assembly and a re-assembly after a parameter "
+    "real_simus: Elastic/Thermal/Beam/WeakForms/PhaseField on generated meshes, first assembly and a re-assembly after a parameter "
     "change; non-trivial = >=2 elements sharing a node. renumbering: Elastic/Thermal with Dirichlet+Neumann on a mesh and "
     "its random renumbering; non-trivial = non-identity permutation, free dofs and a non-zero load. distinct = sha1 of the case."
 )
@@ -30,8 +30,8 @@ ASSUMPTIONS = [
     "oracle = dense element-by-element re-summation written from groupElem.connect with dof = node*dof_n + component "
     "(no call to Get_assembly_e/Get_rows_e/Get_columns_e, no scipy.sparse)",
     "element values are O(1) floats, so bincount re-ordering noise is ~1e-16 and identity level 1e-12 applies",
-    "expected Ndof = Nn*dof_n + (number of Lagrange conditions + number of Dirichlet dofs, when a Lagrange condition "
-    "exists), as documented by _Bc_Lagrange_dim / __Get_Ndof",
+    "expected Ndof = Nn*dof_n + (number of Lagrange conditions + number of distinct Dirichlet dofs, when a Lagrange "
+    "condition exists), as documented by _Bc_Lagrange_dim / __Get_Ndof (one multiplier per constrained dof)",
     "the harness subclass calls model.Need_Update() when it changes its own element values (as built-in models do)",
     "meshes <= ~900 dofs, histories <= 14 operations; renumbering solutions at solve level 1e-8 with cond(K_ff) <= 1e10",
 ]
@@ -200,7 +200,7 @@ def check_history(case, rec):
     simu = cs.HarnessSimu(mesh, dofs, provider)
     pts = simu.Get_problemTypes()
     nlag = [0] * nprob
-    ndir = [0] * nprob
+    ddofs = [set() for _ in range(nprob)]  # distinct Dirichlet dofs (one multiplier per constrained dof)
     seen = set()
     stale = None  # why Get_K_C_M_F may legitimately... no: why its shape is *expected by the known finding* to be stale
     any_nt = False
@@ -211,7 +211,7 @@ def check_history(case, rec):
         m = simu.mesh
         types = gm.mesh_types(m)
         for p in range(nprob):
-            Ndof = m.Nn * dofs[p] + ((nlag[p] + ndir[p]) if nlag[p] > 0 else 0)
+            Ndof = m.Nn * dofs[p] + ((nlag[p] + len(ddofs[p])) if nlag[p] > 0 else 0)
             local = _local_system(m, p, dofs[p], st_)
             sig = dict(types=types, dof_n=dofs[p], step=step)
             # class labels / non-triviality
@@ -282,15 +282,16 @@ def check_history(case, rec):
             nc = min(op["ncomp"], dofs[p])
             comps = sorted(rng.choice(dofs[p], size=nc, replace=False).tolist())
             simu.add_dirichlet(nodes, [float(c) for c in comps], [cs.UNKNOWNS[c] for c in comps], problemType=pts[p])
-            ndir[p] += n * nc
-            if nlag[p] > 0:
+            before = len(ddofs[p])
+            ddofs[p].update(int(a) * dofs[p] + int(c) for a in nodes for c in comps)
+            if nlag[p] > 0 and len(ddofs[p]) != before:
                 stale = "dirichlet_with_lagrange"
         elif k == "bc_init":
             if any(x > 0 for x in nlag):
                 stale = "bc_init_with_lagrange"
             simu.Bc_Init()
             nlag = [0] * nprob
-            ndir = [0] * nprob
+            ddofs = [set() for _ in range(nprob)]
         elif k in ("mesh", "renumber"):
             if k == "mesh":
                 new = gm.build(op["recipe"])
@@ -301,7 +302,7 @@ def check_history(case, rec):
                 raise Inconclusive("too many dofs for the dense oracle")
             simu.mesh = new  # documented: resets the matrices, the boundary conditions and the solutions
             nlag = [0] * nprob
-            ndir = [0] * nprob
+            ddofs = [set() for _ in range(nprob)]
             seen.clear()
             stale = None
         elif k == "move":
@@ -318,7 +319,7 @@ def check_history(case, rec):
 
 @st.composite
 def real_cases(draw):
-    kind = draw(st.sampled_from(["elastic", "elastic", "thermal", "beam", "weakforms"]))
+    kind = draw(st.sampled_from(["elastic", "elastic", "thermal", "thermal", "beam", "beam", "weakforms", "weakforms", "phasefield"]))
     c = dict(kind=kind, seed=draw(st.integers(0, 999)))
     if kind == "elastic":
         dim = draw(st.sampled_from([2, 2, 3]))
@@ -332,6 +333,12 @@ def real_cases(draw):
         c["k"] = draw(st.integers(1, 20)) / 4.0
         c["c"] = draw(st.integers(1, 12)) / 4.0
         c["thickness"] = draw(st.sampled_from([1.0, 0.5, 2.0]))
+    elif kind == "phasefield":
+        c["recipe"] = draw(gm.recipes2d(hmin=5, hmax=10))
+        c["split"] = draw(st.sampled_from(["Bourdin", "Amor", "Miehe"]))
+        c["regu"] = draw(st.sampled_from(["AT1", "AT2"]))
+        c["E"] = draw(st.integers(2, 20)) / 2.0
+        c["v"] = draw(st.integers(0, 4)) / 10.0
     elif kind == "beam":
         c["member"] = draw(gb.member_specs(dims=(2, 3)))
         c["rho"] = draw(st.integers(1, 12)) / 4.0
@@ -343,7 +350,8 @@ def real_cases(draw):
             gm.recipes2d(types=["QUAD4", "QUAD8"], hmin=5, hmax=10, nmax=4).filter(lambda r: len(r["verts"]) == 4)
             .map(lambda r: dict(r, organised=True)),
             gm.recipes3d(types=["TETRA4", "PRISM6", "HEXA8"], nmax=4)))
-        c["vector"] = draw(st.booleans())
+        # vector fields only on first-order elements (the form is evaluated (nPe*dof_n)^2 times: cost)
+        c["vector"] = draw(st.booleans()) and gm.ORDER[c["recipe"]["elemType"]] == 1
         c["slots"] = draw(st.integers(0, 7))  # bit0 C, bit1 M, bit2 F
         c["thickness"] = draw(st.sampled_from([1.0, 0.5]))
         c["coef"] = draw(st.integers(1, 8)) / 2.0
@@ -408,6 +416,25 @@ def check_real(case, rec):
         simu.rho = case["rho"] + 0.5
         simu.Set_Rayleigh_Damping_Coefs(case["rayleigh"][0] + 0.25, case["rayleigh"][1])
         _check_real_simu(rec, simu, sig, "reassembly")
+    elif kind == "phasefield":
+        if mesh.Nn * 2 > MAXDOF:
+            raise Inconclusive("too many dofs for the dense oracle")
+        mat = Models.Elastic.Isotropic(2, E=case["E"], v=case["v"], planeStress=True, thickness=0.5)
+        simu = Simulations.PhaseField(mesh, Models.PhaseField(mat, case["split"], case["regu"], 1.0, 0.2))
+        sig = dict(kind=kind, types=types, dim=2)
+        rec.label(f"phasefield:{case['split']}:{case['regu']}")
+        rng = np.random.default_rng(case["seed"])
+        # two problem types with different dofs per node in one object, assembled alternately (cached maps reused)
+        for rnd in ("first", "reassembly"):
+            for pt in simu.Get_problemTypes():
+                dn = simu.Get_dof_n(pt)
+                vals = 0.01 * rng.uniform(-1, 1, mesh.Nn * dn) if dn > 1 else rng.uniform(0, 0.6, mesh.Nn)
+                simu._Set_solutions(pt, vals)
+            for pt in simu.Get_problemTypes():
+                dn = simu.Get_dof_n(pt)
+                local = simu.Construct_local_matrix_system(pt)
+                local = {g: tuple(None if a is None else np.array(np.asarray(a)) for a in t) for g, t in local.items()}
+                _compare(rec, simu.Assembly(pt), local, dn, mesh.Nn * dn, dict(sig, step=rnd, dof_n=dn), "Assembly")
     elif kind == "thermal":
         if mesh.Nn > MAXDOF:
             raise Inconclusive("too many dofs for the dense oracle")
@@ -558,8 +585,6 @@ def check_renumbering(case, rec):
     dof_guess = mesh0.dim if kind == "elastic" else 1
     if Nn * dof_guess > MAXDOF:
         raise Inconclusive("too many dofs for the dense oracle")
-    if mesh0.Ne < 2 or not gm.is_connected(mesh0):
-        raise Inconclusive("needs >=2 connected elements")
     perm = np.random.default_rng(case["perm"]).permutation(Nn)
     mesh1 = gm.rebuild(mesh0, np.array(mesh0.coord, float), perm)
     simu0, dof_n = _renum_build(case, mesh0)
@@ -603,12 +628,12 @@ def check_renumbering(case, rec):
     tol = 1e-8 * (1.0 + np.linalg.cond(Kff) / 1e6)
     rec.close(u1[pd] - u0, scale, tol, "permuted_solution", f"{types}: solution of the renumbered mesh is not the permuted solution", **sig)
     rec.close(u0 - uref, scale, tol, "solution_of_scatter_system", f"{types}: Solve() differs from the dense solve of the assembled system", **sig)
-    nontriv = (not np.array_equal(perm, np.arange(Nn))) and free.size > 0 and np.abs(rhs).max() > 0
+    nontriv = (not np.array_equal(perm, np.arange(Nn))) and free.size > 0 and np.abs(rhs).max() > 0 and mesh0.Ne >= 2
     rec.nontrivial(nontriv)
 
 
 SUBS = [
-    Sub("custom_simu_history", check_history, gen=history_cases, quick=250, thorough=1500, shards=8),
-    Sub("real_simus", check_real, gen=real_cases_gen, quick=200, thorough=1500, shards=6),
-    Sub("renumbering", check_renumbering, gen=renum_cases, quick=200, thorough=1500, shards=6),
+    Sub("custom_simu_history", check_history, gen=history_cases, quick=250, thorough=800, shards=8),
+    Sub("real_simus", check_real, gen=real_cases_gen, quick=200, thorough=600, shards=4),
+    Sub("renumbering", check_renumbering, gen=renum_cases, quick=200, thorough=600, shards=4),
 ]
